@@ -289,7 +289,7 @@ impl<T> Stream for Upstream<T> {
     fn size_hint(&self) -> (usize, Option<usize>) {
         let r = self.st.honest_remaining.get();
         let hi = self.st.slack_hi.get();
-        (r.saturating_sub(self.st.slack_lo.get()), if hi == usize::MAX { None } else { Some(r + hi) })
+        (r.saturating_sub(self.st.slack_lo.get()), if hi == usize::MAX { None } else if hi == usize::MAX - 1 { Some(usize::MAX) } else { Some(r + hi) })
     }
 }
 fn upstream<T>(script: &[Up], mk: Box<dyn FnMut(usize, St) -> T>) -> (Upstream<T>, Rc<UpSt>) {
@@ -951,6 +951,78 @@ fn run_quiescence(prop: &'static str) {
         }
     }
 }
+/// C14 for merges and adapters: everything held sleeps, nobody wakes anybody: a quiet Pending within held + 2 polls.
+fn run_quiescence_wrappers(prop: &'static str) {
+    if prop != "C14" {
+        return;
+    }
+    let tw = Arc::new(CountWaker(AtomicUsize::new(0)));
+    let waker = Waker::from(tw.clone());
+    let mut cx = Context::from_waker(&waker);
+    // merges: some sources end, the others sleep
+    for unb in [false, true] {
+        for &(nsrc, ending) in &[(1usize, 0usize), (3, 1), (33, 1), (34, 2), (40, 8), (97, 1), (100, 36)] {
+            let mut rng = Rng(5);
+            let mut sts = vec![];
+            let mut srcs = vec![];
+            for i in 0..nsrc {
+                let (s, st) = mk_src(i, &mut rng);
+                st.script.borrow_mut().clear();
+                if i + ending >= nsrc { st.script.borrow_mut().push_back(Up::End); } else { for _ in 0..1000 { st.script.borrow_mut().push_back(Up::Pending); } }
+                sts.push(st);
+                srcs.push(s);
+            }
+            enum M3 { B(MergeBounded<Src>), U(MergeUnbounded<Src>) }
+            let mut m = if unb { let mut mu = MergeUnbounded::new(); for s in srcs { mu.push(s); } M3::U(mu) } else { M3::B(srcs.into_iter().collect()) };
+            let held = nsrc - ending;
+            let bound = held + 2 + ending;
+            let mut trail = vec![];
+            let mut quiet_at = None;
+            for k in 0..(bound + 6) {
+                let before = tw.0.load(Ordering::SeqCst);
+                let r = match &mut m { M3::B(m) => Pin::new(m).poll_next(&mut cx), M3::U(m) => Pin::new(m).poll_next(&mut cx) };
+                let woke = tw.0.load(Ordering::SeqCst) > before;
+                trail.push(format!("poll -> {} (task woken: {woke})", if r.is_pending() { "Pending" } else { "Ready" }));
+                if r.is_pending() && !woke { quiet_at = Some(k); }
+                else if quiet_at.is_some() { quiet_at = None; }
+            }
+            let tail_noisy = trail.iter().rev().take(3).all(|t| t.ends_with("true)"));
+            if held > 0 && (quiet_at.is_none() || tail_noisy) {
+                report(&Fail { prop, scenario: format!("{}: {nsrc} sources, the last {ending} end at once, the others sleep; nobody invokes a waker", if unb { "MergeUnbounded" } else { "MergeBounded" }),
+                    history: trail.iter().rev().take(6).rev().cloned().collect(), what: format!("after {} polls the merge still wakes its task although every held source sleeps (bound: held + 2)", bound + 6) });
+            }
+        }
+    }
+    // adapters: n sleeping jobs in flight (or none), upstream pending for ever
+    for which in 0..5usize {
+        for n in 1..=3usize {
+            for jobs in 0..=n {
+                let mut script: Vec<Up> = vec![Up::Item; jobs];
+                for _ in 0..200 { script.push(Up::Pending); }
+                type BoxS = Pin<Box<dyn Stream<Item = Result<usize, usize>>>>;
+                let names = ["buffered_unordered", "buffered_ordered", "try_buffered_unordered", "try_buffered_ordered", "for_each_concurrent"];
+                let (mut s, _ust): (BoxS, Rc<UpSt>) = match which {
+                    0 => { let (u, st) = upstream(&script, Box::new(move |id, c| Fut::new(id, c))); (Box::pin(MapOk(u.buffered_unordered(n))), st) }
+                    1 => { let (u, st) = upstream(&script, Box::new(move |id, c| Fut::new(id, c))); (Box::pin(MapOk(u.buffered_ordered(n))), st) }
+                    2 => { let (u, st) = upstream(&script, Box::new(move |id, c: St| Ok::<TFut, usize>(TFut(Fut::new(id, c))))); (Box::pin(MapTry(u.try_buffered_unordered(n))), st) }
+                    3 => { let (u, st) = upstream(&script, Box::new(move |id, c: St| Ok::<TFut, usize>(TFut(Fut::new(id, c))))); (Box::pin(MapTry(u.try_buffered_ordered(n))), st) }
+                    _ => { let (u, st) = upstream(&script, Box::new(move |id, c: St| (id, c))); let f = u.for_each_concurrent(n, move |(id, c): (usize, St)| UnitFut(Fut::new(id, c))); (Box::pin(FutStream(Some(Box::pin(f)))), st) }
+                };
+                let mut trail = vec![];
+                for _ in 0..(jobs + 8) {
+                    let before = tw.0.load(Ordering::SeqCst);
+                    let r = s.as_mut().poll_next(&mut cx);
+                    let woke = tw.0.load(Ordering::SeqCst) > before;
+                    trail.push(format!("poll -> {} (task woken: {woke})", if r.is_pending() { "Pending" } else { "Ready" }));
+                }
+                if trail.iter().rev().take(3).all(|t| t.ends_with("true)")) {
+                    report(&Fail { prop, scenario: format!("{}({n}): {jobs} sleeping jobs pulled, upstream pending for ever; nobody invokes a waker", names[which]),
+                        history: trail.iter().rev().take(6).rev().cloned().collect(), what: format!("after {} polls the adapter still wakes its task on every poll although everything it holds sleeps", jobs + 8) });
+                }
+            }
+        }
+    }
+}
 fn run_adapters(prop: &'static str, seed: u64, iters: usize) {
     let mut rng = Rng(seed.wrapping_mul(0xD1B54A32D192ED03) | 1);
     for it in 0..iters {
@@ -1015,7 +1087,12 @@ fn run_adapters(prop: &'static str, seed: u64, iters: usize) {
             }
         };
         // the upstream's own hint: exact in two of three histories, otherwise loose (still honest)
-        if it % 3 == 1 {
+        if it % 7 == 3 {
+            // an honest hint with an upper bound at the very top of the range: (0, Some(usize::MAX))
+            ust.slack_lo.set(usize::MAX);
+            ust.slack_hi.set(usize::MAX - 1);
+            hist.push("(upstream size_hint is (0, Some(usize::MAX)))".into());
+        } else if it % 3 == 1 {
             ust.slack_lo.set(it % 4);
             ust.slack_hi.set(if it % 5 == 0 { usize::MAX } else { 1 + it % 3 });
             hist.push(format!("(upstream size_hint is loose: lower bound {} below, upper bound {} the number of items it will yield)", it % 4, if it % 5 == 0 { "absent instead of".to_string() } else { format!("{} above", 1 + it % 3) }));
@@ -1217,6 +1294,43 @@ impl<'a> Future for PTFut<'a> {
     }
 }
 fn run_join_special(prop: &'static str) {
+    if prop == "C07" {
+        // a child panics when polled; the caller catches the unwind and keeps using the combinator: it must never resolve,
+        // because the panicked input produced nothing
+        let tw = Arc::new(CountWaker(AtomicUsize::new(0)));
+        let waker = Waker::from(tw.clone());
+        let mut cx = Context::from_waker(&waker);
+        for try_variant in [false, true] {
+            for n in 2..=4usize {
+                for bad in 0..n {
+                    let sts: Vec<St> = (0..n).map(|i| { let s: St = Rc::new(ChildSt::default()); if i == bad { s.panic_on_poll.set(true); } s }).collect();
+                    let scenario = format!("{}: {n} inputs, input {bad} panics when polled; the caller catches the panic, the other inputs complete, the combinator is polled again", if try_variant { "try_join_all" } else { "join_all" });
+                    let mut resolved = false;
+                    if try_variant {
+                        let mut j = Box::pin(try_join_all(sts.iter().enumerate().map(|(i, s)| TFut(Fut::new(i, s.clone()))).collect::<Vec<_>>()));
+                        let _ = std::panic::catch_unwind(std::panic::AssertUnwindSafe(|| { let _ = j.as_mut().poll(&mut cx); }));
+                        for (i, s) in sts.iter().enumerate() { if i != bad { s.ready.set(true); wake_child(s); } }
+                        for _ in 0..3 {
+                            if let Ok(Poll::Ready(r)) = std::panic::catch_unwind(std::panic::AssertUnwindSafe(|| j.as_mut().poll(&mut cx))) { if r.is_ok() { resolved = true; } std::mem::forget(r); break; }
+                        }
+                        std::mem::forget(j);
+                    } else {
+                        let mut j = Box::pin(join_all(sts.iter().enumerate().map(|(i, s)| Fut::new(i, s.clone())).collect::<Vec<_>>()));
+                        let _ = std::panic::catch_unwind(std::panic::AssertUnwindSafe(|| { let _ = j.as_mut().poll(&mut cx); }));
+                        for (i, s) in sts.iter().enumerate() { if i != bad { s.ready.set(true); wake_child(s); } }
+                        for _ in 0..3 {
+                            if let Ok(Poll::Ready(r)) = std::panic::catch_unwind(std::panic::AssertUnwindSafe(|| j.as_mut().poll(&mut cx))) { resolved = true; std::mem::forget(r); break; }
+                        }
+                        std::mem::forget(j);
+                    }
+                    if resolved {
+                        report(&Fail { prop, scenario, history: vec![format!("poll (input {bad} panics, caught)"), "complete the other inputs".into(), "poll".into()], what: format!("resolved to a Vec of {n} elements although input {bad} never produced an output") });
+                    }
+                }
+            }
+        }
+        return;
+    }
     if prop != "C06" {
         return;
     }
@@ -1349,6 +1463,8 @@ fn run_join(prop: &'static str, seed: u64, iters: usize) {
                                 }
                             } else if !v.is_empty() {
                                 fail(&["C07"], &hist, format!("polled again after completion: handed out {v:?}"));
+                            } else if children.iter().any(|c| !c.done.get()) {
+                                fail(&["C07"], &hist, "polled again after it had resolved: answered Ok while an input is still outstanding".into());
                             }
                         }
                         Poll::Ready(Err(e)) => {
@@ -1422,6 +1538,8 @@ struct SrcSt {
     always_ready: Cell<bool>,
     addr: Cell<usize>,
     moved: Cell<bool>,
+    /// what the source reports as its own size_hint: 0 = the trait default (0, None), 1 = exact, 2 = (items left, None)
+    hint_mode: Cell<usize>,
     /// pushed, or woken through its own waker, and not polled since
     fresh: Cell<bool>,
 }
@@ -1464,6 +1582,14 @@ impl Stream for Src {
             }
         }
     }
+    fn size_hint(&self) -> (usize, Option<usize>) {
+        let left = if self.st.ended.get() { 0 } else { self.st.script.borrow().iter().take_while(|u| **u != Up::End).filter(|u| **u == Up::Item || **u == Up::ErrItem).count() };
+        match self.st.hint_mode.get() {
+            1 if !self.st.always_ready.get() => (left, Some(left)),
+            2 if !self.st.always_ready.get() => (left, None),
+            _ => (0, None),
+        }
+    }
 }
 fn mk_src(id: usize, rng: &mut Rng) -> (Src, Rc<SrcSt>) {
     let mut script = VecDeque::new();
@@ -1471,7 +1597,7 @@ fn mk_src(id: usize, rng: &mut Rng) -> (Src, Rc<SrcSt>) {
         script.push_back(if rng.below(3) == 0 { Up::Pending } else { Up::Item });
     }
     script.push_back(Up::End);
-    let st = Rc::new(SrcSt { id, script: RefCell::new(script), seq: Cell::new(0), ended: Cell::new(false), polled_after_end: Cell::new(false), polls: Cell::new(0), waker: RefCell::new(None), dropped: Cell::new(0), always_ready: Cell::new(false), fresh: Cell::new(true), addr: Cell::new(0), moved: Cell::new(false) });
+    let st = Rc::new(SrcSt { id, script: RefCell::new(script), seq: Cell::new(0), ended: Cell::new(false), polled_after_end: Cell::new(false), polls: Cell::new(0), waker: RefCell::new(None), dropped: Cell::new(0), always_ready: Cell::new(false), fresh: Cell::new(true), addr: Cell::new(0), moved: Cell::new(false), hint_mode: Cell::new(id % 3) });
     (Src { st: st.clone() }, st)
 }
 fn run_merge(prop: &'static str, seed: u64, iters: usize) {
@@ -1602,6 +1728,7 @@ fn run_merge(prop: &'static str, seed: u64, iters: usize) {
             if grouped || rng.below(2) == 0 { let mut mu = MergeUnbounded::new(); for s in srcs { mu.push(s); } M::U(mu) } else { hist.push("(built by collect())".into()); if rng.below(2) == 0 { M::U(Vague(srcs.into_iter(), 1).collect()) } else { M::U(srcs.into_iter().collect()) } }
         } else if rng.below(2) == 0 { hist.push("(built by collect() over an iterator whose size_hint is (len - 1, None))".into()); M::B(Vague(srcs.into_iter(), 1).collect()) } else { M::B(srcs.into_iter().collect()) };
         let mut wakes = vec![0usize; nsrc];
+        let mut mhints: Vec<(usize, usize, Option<usize>, usize)> = vec![];
         let tw = Arc::new(CountWaker(AtomicUsize::new(0)));
         let waker = Waker::from(tw.clone());
         let mut cx = Context::from_waker(&waker);
@@ -1624,6 +1751,15 @@ fn run_merge(prop: &'static str, seed: u64, iters: usize) {
                 }
                 hist.push(format!("wake({i})"));
                 continue;
+            }
+            {
+                // observers of the merge (C15) and its size hint (C17, judged exactly at the end of the run)
+                let live = sts.iter().enumerate().filter(|(i, s)| pushed[*i] && !s.ended.get()).count();
+                let (len, empty, hint) = match &m { M::B(m) => (live, live == 0, m.size_hint()), M::U(m) => (m.len(), m.is_empty(), m.size_hint()) };
+                if len != live || empty != (live == 0) {
+                    fail(&["C15"], &hist, format!("len()={len} is_empty()={empty} but {live} sources are held"));
+                }
+                mhints.push((next_seq.iter().sum::<usize>(), hint.0, hint.1, hist.len()));
             }
             let before = tw.0.load(Ordering::SeqCst);
             let r = match &mut m {
@@ -1683,6 +1819,31 @@ fn run_merge(prop: &'static str, seed: u64, iters: usize) {
                 }
                 if next_seq[i] != s.seq.get() {
                     fail(&["C11"], &hist, format!("source {i} produced {} items but {} were yielded", s.seq.get(), next_seq[i]));
+                }
+            }
+        }
+        if prop == "C17" && late_srcs.is_empty() {
+            // run the merge to its end (every pending source is woken until it ends), then compare every recorded hint with
+            // the number of items that were really yielded after it; hints taken before a later push are not comparable
+            let mut guard = 0;
+            while !done && guard < 400 * (nsrc + 1) {
+                guard += 1;
+                for st in sts.iter() { if let Some(w) = st.waker.borrow().as_ref() { w.wake_by_ref(); } }
+                match match &mut m { M::B(m) => Pin::new(m).poll_next(&mut cx), M::U(m) => Pin::new(m).poll_next(&mut cx) } {
+                    Poll::Ready(Some((id, _))) => next_seq[id] += 1,
+                    Poll::Ready(None) => done = true,
+                    Poll::Pending => {}
+                }
+            }
+            if done && late == 0 {
+                let total: usize = next_seq.iter().sum();
+                for (y, lo, hi, hl) in &mhints {
+                    let rem = total - y;
+                    if *lo > rem || hi.map(|h| h < rem).unwrap_or(false) {
+                        hist.truncate(*hl);
+                        hist.push(format!("size_hint() -> ({lo},{hi:?}); then the merge is polled to its end: {rem} more items"));
+                        fail(&["C17"], &hist, format!("size_hint ({lo},{hi:?}) of the merge does not bracket the {rem} items it went on to yield"));
+                    }
                 }
             }
         }
@@ -1850,6 +2011,45 @@ fn run_alloc_unbounded(prop: &'static str) {
         let late: usize = per[20..].iter().sum();
         if late > 0 {
             report(&Fail { prop, scenario, history: vec![format!("allocations in the first 30 cycles: {:?}", &per[..30])], what: format!("{late} allocations in cycles 21..200 with at most {} futures held", parked + 2) });
+        }
+    }
+    // S3b: MergeUnbounded with four groups (32 + 64 + 128 ...): the 32 sources pushed first end late, the other 192 end together,
+    // so that several groups run dry within one poll call, the largest included
+    {
+        let mut rng = Rng(11);
+        let mut m: MergeUnbounded<Src> = MergeUnbounded::new();
+        let mut keep = vec![];
+        let mut id = 0usize;
+        let mut per_cycle = vec![];
+        for _cycle in 0..14 {
+            let mut srcs = vec![];
+            let mut early = vec![];
+            for j in 0..224usize {
+                let (s, st) = mk_src(id, &mut rng);
+                st.script.borrow_mut().clear();
+                for _ in 0..3 { st.script.borrow_mut().push_back(Up::Pending); }
+                st.script.borrow_mut().push_back(Up::End);
+                if j < 32 { for _ in 0..6 { st.script.borrow_mut().push_front(Up::Pending); } }
+                early.push(st.clone());
+                keep.push(st);
+                srcs.push(s);
+                id += 1;
+            }
+            let mut a = 0usize;
+            for s in srcs { measured!(a, m.push(s)); }
+            let mut guard = 0;
+            while early.iter().any(|st| !st.ended.get()) && guard < 400 {
+                guard += 1;
+                for st in early.iter() { if let Some(w) = st.waker.borrow().as_ref() { w.wake_by_ref(); } }
+                let r = measured!(a, Pin::new(&mut m).poll_next(&mut cx));
+                drop(r);
+            }
+            for _ in 0..6 { let r = measured!(a, Pin::new(&mut m).poll_next(&mut cx)); drop(r); }
+            per_cycle.push(a);
+        }
+        let late: usize = per_cycle[6..].iter().sum();
+        if late > 0 {
+            report(&Fail { prop, scenario: "MergeUnbounded: 14 cycles of push 224 pending sources / wake them all until they have ended (the 32 pushed first end six polls later than the others)".into(), history: vec![format!("allocations per cycle: {:?}", per_cycle)], what: format!("{late} allocations in cycles 7..14 at a constant peak of 224 sources") });
         }
     }
     // S3: MergeUnbounded: cycles of push K sources that yield one item and end
@@ -2055,9 +2255,14 @@ fn main() {
         }
         "C14" => {
             run_quiescence(prop);
+            run_quiescence_wrappers(prop);
             run_collections(prop, seed, iters);
         }
-        "C02" | "C15" => run_collections(prop, seed, iters),
+        "C15" => {
+            run_collections(prop, seed, iters);
+            run_merge(prop, seed, iters / 4);
+        }
+        "C02" => run_collections(prop, seed, iters),
         "C05" => {
             run_collections(prop, seed, iters);
             run_merge(prop, seed, iters / 2);
@@ -2073,6 +2278,7 @@ fn main() {
         "C17" => {
             run_adapters(prop, seed, iters);
             run_collections(prop, seed, iters / 2);
+            run_merge(prop, seed, iters / 4);
         }
         "C10" => {
             if known {
